@@ -244,6 +244,7 @@ def plan_C13(res, binary, hooked, tier, seed):
 
 def plan_C11(res, binary, hooked, tier, seed):
     reader_models(res, tier, "C11")
+    range_coder_small(res, binary, tier, seed, "C11")
     rep = run_harness(binary, ["reader", "--mode", "c11", "--property", "C11", "--seed", seed, "--inputs", tq(tier, 24, 300)], "C11_rd")
     res.add_harness(rep, "size-bounded LZMA payloads (13- and 5-byte headers) and LZMA2 streams followed by 0/1/5/64 arbitrary bytes, read through slice, Cursor, scripted sources and BufReader(1/5/4096): must succeed with unchanged output and leave the reader exactly at the end of the payload (position predicted by the reference decoder's lock-step count); marker-terminated LZMA and XZ with trailing bytes must fail")
     lzma_layer(res, binary, hooked, tier, seed, "C11", [])
@@ -266,7 +267,16 @@ def plan_C14(res, binary, hooked, tier, seed):
     return ("operation histories x stream pool; an evaluation = one decompress-after-reset compared with a new decoder; distinct = distinct histories"), [
         "TLC 1.8; RawReuse.tla", "the freshly constructed decoder of lzma-rs is the oracle, as the property states; the projection hook (cfg lzma_rs_verif) only feeds the shape tier"]
 
+def range_coder_small(res, binary, tier, seed, prop):
+    """RangeCoderSmall.tla: round trip, lock-step and clean end of the parametric range coder at small parameters;
+    the generic harness kernel must reproduce TLC's streams digit for digit and equal the fixed kernel at (32,8,11,5)."""
+    mc = run_tlc("MC_RangeCoderSmall", "MC_RangeCoderSmall.cfg", "%s_rc" % prop, workers=8, timeout=600, coverage=False)
+    res.add_tlc(mc, "parametric range coder (W=9, B=3, P=4, M=2): RoundTrip, LockStep, CleanEnd, ProbRange, RangeOK over all 12-bit strings on 2 adaptive contexts (carries into runs of pending all-ones digits are reachable)")
+    rep = run_harness(binary, ["rcsmall", "--property", prop, "--seed", seed, "--export", mc["out"]], "%s_rc" % prop)
+    res.add_harness(rep, "generic range coder of the harness vs every stream exported by TLC (small parameters) and vs the fixed 32-bit kernel (real parameters, 200 random context/bit sequences up to 40 000 bits with strong biases)")
+
 def plan_C04(res, binary, hooked, tier, seed):
+    range_coder_small(res, binary, tier, seed, "C04")
     mc = run_tlc("MC_Encoder", "MC_Encoder.cfg", "C04_mc", workers=8, timeout=900, coverage=False)
     res.add_tlc(mc, "abstract encoders vs format semantics for all inputs of length 0..7 (chunk limit scaled to 3) x 3 options x all source fragmentations: RoundTripLzma + LitOnly, RoundTripLzma2, XzArithmetic, ChunkCount")
     trace = os.path.join(WORK, "trace_C04.ndjson")
